@@ -360,6 +360,8 @@ pub fn run(line: &str) -> Option<(String, Vec<String>)> {
     match t.first().copied() {
         Some("E") => run_e(&t),
         Some("Q") => run_q(&t),
+        Some("S") => run_s(&t),
+        Some("U") => run_u(&t),
         _ => None,
     }
 }
@@ -540,6 +542,45 @@ fn run_q(t: &[&str]) -> Option<(String, Vec<String>)> {
     }
     let format = format_by_name(t[1])?;
     let px = [special(t[2])?, special(t[3])?, special(t[4])?, special(t[5])?];
+    encode_px(format, px)
+}
+
+/// `S <r> <g> <b>`: a 1x1 RGBA f32 pixel given by the bit patterns of its colour channels (alpha 1.0)
+/// into R9G9B9E5_SHAREDEXP; the encoded word is compared with the bit-level model of
+/// `rgb9995f::from_f32`. In the checked profile the `debug_assert!`s of that function are live, so a
+/// mantissa above 511 or an exponent above 31 is a panic = an oracle failure.
+fn run_s(t: &[&str]) -> Option<(String, Vec<String>)> {
+    if t.len() != 4 {
+        return None;
+    }
+    let mut px = [1.0f32; 4];
+    for i in 0..3 {
+        px[i] = f32::from_bits(t[1 + i].parse::<u32>().ok()?);
+    }
+    encode_px(Format::R9G9B9E5_SHAREDEXP, px)
+}
+
+/// formats whose `f32` quantisers (`n1..n10::from_f32`, `s8::from_uf32`) the model carries at the bit level
+pub const U_FORMATS: &[&str] = &[
+    "B5G6R5_UNORM", "B5G5R5A1_UNORM", "B4G4R4A4_UNORM", "A4B4G4R4_UNORM", "R10G10B10A2_UNORM", "R8G8B8A8_SNORM",
+];
+
+/// `U <format> <r> <g> <b> <a>`: a 1x1 RGBA f32 pixel given by bit patterns into a packed UNORM / SNORM8
+/// format; the encoded word is compared with the bit-level quantiser models. In the checked profile the
+/// `debug_assert!(x <= 254)` of `s8::from_norm` and the overflow check of `x + 1` are live.
+fn run_u(t: &[&str]) -> Option<(String, Vec<String>)> {
+    if t.len() != 6 || !U_FORMATS.contains(&t[1]) {
+        return None;
+    }
+    let format = format_by_name(t[1])?;
+    let mut px = [0.0f32; 4];
+    for i in 0..4 {
+        px[i] = f32::from_bits(t[2 + i].parse::<u32>().ok()?);
+    }
+    encode_px(format, px)
+}
+
+fn encode_px(format: Format, px: [f32; 4]) -> Option<(String, Vec<String>)> {
     let mut data = vec![];
     for v in px {
         data.extend_from_slice(&v.to_ne_bytes());
@@ -643,6 +684,160 @@ impl G {
 fn enc_len(f: Format, w: u32, h: u32) -> u64 {
     let s = if w == 0 || h == 0 { Size::new(0, 0) } else { Size::new(w, h) };
     PixelInfo::from(f).surface_bytes(s).unwrap_or(0)
+}
+
+/// bit patterns around everything `rgb9995f::from_f32` branches on: NaNs, infinities, negative values,
+/// both zeros, subnormals, the clamp value 65408 = 0x477F8000, and for every exponent field the
+/// fractions at which `c * 2^(24-exp) + 0.5` rounds up to 512 (the second pass)
+fn gen_s(out: &mut Vec<String>, seed: u64, thorough: bool) {
+    let mut rng = Rng::new(seed ^ 0x5348_4152_4544_4558);
+    const SPECIAL: &[u32] = &[
+        0, 0x8000_0000, 1, 0x007F_FFFF, 0x0080_0000, 0x8000_0001, 0x7F80_0000, 0xFF80_0000, 0x7FC0_0000,
+        0xFFC0_0000, 0x7F80_0001, 0x7F7F_FFFF, 0xFF7F_FFFF, 0xBF80_0000, 0x3F80_0000, 0x477F_8000,
+        0x477F_7FFF, 0x477F_8001, 0x477F_4000, 0x477F_3FFF, 0x477F_FFFF, 0x4780_0000, 0x4700_0000,
+        0x46FF_FFFF, 0x3780_0000, 0x377F_FFFF, 0x3800_0000, 0x37FF_FFFF, 0x3400_0000, 0x33FF_FFFF,
+    ];
+    const FRAC: &[u32] = &[
+        0, 1, 0x7F_FFFF, 0x7F_FFFE, 0x7F_C000, 0x7F_BFFF, 0x7F_C001, 0x7F_8000, 0x7F_7FFF, 0x7F_E000,
+        0x7F_DFFF, 0x40_0000, 0x3F_FFFF, 0x00_4000, 0x00_3FFF,
+    ];
+    // every triple of a core of specials, every pair (special, special, 1.0)
+    for &a in &SPECIAL[..12] {
+        for &b in &SPECIAL[..12] {
+            for &c in &SPECIAL[..12] {
+                out.push(format!("S {a} {b} {c}"));
+            }
+        }
+    }
+    for &a in SPECIAL {
+        for &b in SPECIAL {
+            out.push(format!("S {a} {b} {}", 0x3F80_0000u32));
+            out.push(format!("S {} {a} {b}", 0u32));
+        }
+    }
+    // every exponent field that can be the maximum's (and a margin), boundary fractions, partners
+    for e in 96u32..=144 {
+        for &f in FRAC {
+            let m = (e << 23) | f;
+            let partners = [
+                0u32,
+                m,
+                m - 1,
+                m.wrapping_sub(0x0080_0000),
+                m.wrapping_sub(0x0080_0000) | 0x7F_FFFF,
+                ((e - 9) << 23) | 0x7F_FFFF,
+                ((e - 10) << 23) | (rng.next() as u32 & 0x7F_FFFF),
+                1,
+                0x8000_0000 | m,
+                (rng.below(e as u64) as u32) << 23 | (rng.next() as u32 & 0x7F_FFFF),
+            ];
+            for &p in &partners {
+                let q = *rng.pick(&partners);
+                match rng.below(3) {
+                    0 => out.push(format!("S {m} {p} {q}")),
+                    1 => out.push(format!("S {p} {m} {q}")),
+                    _ => out.push(format!("S {q} {p} {m}")),
+                }
+            }
+        }
+    }
+    // PRNG: exponents in and around the representable range with fractions biased to long runs of
+    // ones (rounding carries), and uniformly random patterns
+    let n = if thorough { 400_000 } else { 12_000 };
+    let mut pat = |rng: &mut Rng| -> u32 {
+        match rng.below(10) {
+            0 => rng.next() as u32,
+            1 => *rng.pick(SPECIAL),
+            _ => {
+                let e = match rng.below(8) {
+                    0 => rng.below(256) as u32,
+                    1 => rng.range(136, 144) as u32,
+                    _ => rng.range(100, 144) as u32,
+                };
+                let mut f = rng.next() as u32 & 0x7F_FFFF;
+                match rng.below(6) {
+                    0 => f |= 0x7F_FFFF << rng.below(16),
+                    1 => f = *rng.pick(FRAC),
+                    2 => f &= !((1u32 << rng.below(23)) - 1),
+                    _ => {}
+                }
+                let sign = if rng.chance(1, 12) { 0x8000_0000 } else { 0 };
+                sign | (e << 23) | (f & 0x7F_FFFF)
+            }
+        }
+    };
+    for _ in 0..n {
+        let a = pat(&mut rng);
+        let mut b = pat(&mut rng);
+        let mut c = pat(&mut rng);
+        // often make the other channels smaller than the first so that it decides the exponent
+        if rng.chance(1, 2) {
+            b = b.min(a & 0x7FFF_FFFF);
+        }
+        if rng.chance(1, 2) {
+            c = c.min(a & 0x7FFF_FFFF);
+        }
+        match rng.below(3) {
+            0 => out.push(format!("S {a} {b} {c}")),
+            1 => out.push(format!("S {b} {a} {c}")),
+            _ => out.push(format!("S {c} {b} {a}")),
+        }
+    }
+}
+
+/// bit patterns around everything `(x.min(1.0) * MAX + 0.5) as uN` and `x >= 0.5` branch on: NaNs, infinities,
+/// both zeros, negative values, values just below / at / above 1.0 and 0.5, the rounding boundaries
+/// `(k + 0.5) / MAX` of every code `k` (one ulp below, at, above), subnormals, huge values
+fn gen_u(out: &mut Vec<String>, seed: u64, thorough: bool) {
+    let mut rng = Rng::new(seed ^ 0x554E_4F52_4D42_4954);
+    const SPECIAL: &[u32] = &[
+        0, 0x8000_0000, 1, 0x8000_0001, 0x007F_FFFF, 0x0080_0000, 0x7F80_0000, 0xFF80_0000, 0x7FC0_0000,
+        0xFFC0_0000, 0x7F80_0001, 0xFF80_0001, 0x7F7F_FFFF, 0xFF7F_FFFF, 0x3F80_0000, 0x3F7F_FFFF, 0x3F80_0001,
+        0x3F00_0000, 0x3EFF_FFFF, 0x3F00_0001, 0xBF80_0000, 0xBF00_0000, 0xBEFF_FFFF, 0xBF00_0001, 0xB300_0000,
+        0x4000_0000, 0x3C00_0000, 0x3B80_8081,
+    ];
+    for name in U_FORMATS {
+        for &v in SPECIAL {
+            out.push(format!("U {name} {v} {v} {v} {v}"));
+            out.push(format!("U {name} {v} 0 {} {}", 0x3F80_0000u32, 0x3F00_0000u32));
+            out.push(format!("U {name} {} {v} 0 {v}", 0x3F80_0000u32));
+        }
+        // the rounding boundaries of every code of the widest field of the format
+        let max: u32 = match *name {
+            "B5G6R5_UNORM" => 63,
+            "B5G5R5A1_UNORM" => 31,
+            "B4G4R4A4_UNORM" | "A4B4G4R4_UNORM" => 15,
+            "R10G10B10A2_UNORM" => 1023,
+            _ => 254,
+        };
+        let step = if max > 300 && !thorough { 7 } else { 1 };
+        let mut k = 0;
+        while k <= max {
+            let t = ((k as f32 + 0.5) / max as f32).to_bits();
+            for d in [-2i32, -1, 0, 1, 2] {
+                let v = (t as i32 + d) as u32;
+                let w = *rng.pick(SPECIAL);
+                out.push(format!("U {name} {v} {v} {v} {v}"));
+                out.push(format!("U {name} {w} {v} {w} {}", v | 0x8000_0000));
+            }
+            k += step;
+        }
+        let n = if thorough { 60_000 } else { 2_500 };
+        for _ in 0..n {
+            let mut px = [0u32; 4];
+            for p in px.iter_mut() {
+                *p = match rng.below(10) {
+                    0 => rng.next() as u32,
+                    1 => *rng.pick(SPECIAL),
+                    2 => (rng.range(0, 130) as u32) << 23 | (rng.next() as u32 & 0x7F_FFFF),
+                    3 => 0x8000_0000 | (rng.range(0, 255) as u32) << 23 | (rng.next() as u32 & 0x7F_FFFF),
+                    4 => ((rng.below(max as u64 + 1) as f32 + 0.5) / max as f32).to_bits().wrapping_add(rng.below(5) as u32).wrapping_sub(2),
+                    _ => (rng.range(110, 127) as u32) << 23 | (rng.next() as u32 & 0x7F_FFFF),
+                };
+            }
+            out.push(format!("U {name} {} {} {} {}", px[0], px[1], px[2], px[3]));
+        }
+    }
 }
 
 pub fn gen(seed: u64, thorough: bool) -> Vec<String> {
@@ -806,6 +1001,11 @@ pub fn gen(seed: u64, thorough: bool) -> Vec<String> {
             g.out.push(format!("Q {name} {a} {b} {c} {d}"));
         }
     }
+
+    // (f2) S cases: bit patterns through `rgb9995f::from_f32` (own PRNG stream: the E cases keep theirs)
+    gen_s(&mut g.out, seed, thorough);
+    // (f3) U cases: bit patterns through the f32 UNORM / SNORM8 quantisers of six packed formats
+    gen_u(&mut g.out, seed, thorough);
 
     // (g) PRNG over the whole quantifier
     let n = if thorough { 1_200_000 } else { 40_000 };
